@@ -192,7 +192,7 @@ def obligations():
         ok_t = len(ac) == 1 and len(l2n) == 2
         if ok_t:
             d = l2n[0][1]
-            ok_t = (ac[0][3] == (("item", d, leaf), bs)
+            ok_t = (ac[0][3] == (("item", d, leaf), bs) and not ac[0][4]      # exactly (node, split): no option that changes how the rule is stored
                     and l2n[0][2] == ("setitem", leaf, ("binop", "Sub", ("binop", "Mult", fx.C(2), nlv), fx.C(1)))
                     and l2n[1][2] == ("setitem", nlv, ("binop", "Mult", fx.C(2), nlv))
                     and ev.index(ac[0]) < ev.index(l2n[0]) and d[1] == ((fx.C(0), fx.C(0)),))
